@@ -267,11 +267,22 @@ class FuncEffects:
                 r = self.eng.prog.resolve_name(self.mod, d)
                 if isinstance(r, (FuncInfo, ClassInfo, ModuleInfo)):
                     return {"fresh"}  # a function / class / module object, not data
+            path = dotted(e)
+            if path and path.count(".") >= 2 and path.split(".")[0] == self.selfname:
+                # field-sensitive for paths below self (self.opts.exts): the last store to the same path in this function
+                # before the use decides what object it is
+                stores = [(st_.lineno, v_) for t_, v_, st_ in A.assignments(self.fn) if isinstance(t_, ast.Attribute) and dotted(t_) == path
+                          and not isinstance(v_, ast.AugAssign) and st_.lineno <= getattr(at, "lineno", 10 ** 9)]
+                if stores:
+                    ln, v_ = max(stores, key=lambda x: x[0])
+                    st_ = next(s3 for t3, v3, s3 in A.assignments(self.fn) if v3 is v_)
+                    if (id(v_),) not in _seen:
+                        return self.prov(v_, st_, _depth + 1, _seen | {(id(v_),)})
             base = self.prov(e.value, at, _depth + 1, _seen)
             out = set()
             for t in base:
                 if t == "self":
-                    out.add("self:" + e.attr)
+                    out.add(self._self_tag(e.attr))
                 elif t == "fresh":
                     out.add("fresh")
                 else:
@@ -299,6 +310,31 @@ class FuncEffects:
         if isinstance(e, (ast.Yield, ast.YieldFrom)):
             return {"unknown"}
         return {"fresh"}
+
+    def _self_tag(self, attr):
+        """self:<attr> for instance state, class:<attr> when the attribute only exists at class level (one object
+        shared by every instance and every call)"""
+        K = self.fi.cls
+        if K is not None:
+            owner, node = self.eng.prog.lookup_attr(K, attr)
+            if owner is not None and not isinstance(node, FuncInfo):
+                inst = False
+                for c in self.eng.prog.mro(K):
+                    if not isinstance(c, ClassInfo):
+                        continue
+                    for m in c.methods.values():
+                        ps = m.params()
+                        if not ps:
+                            continue
+                        for t_, v_, st_ in A.assignments(m.node):
+                            if A.self_attr(t_, ps[0]) == attr:
+                                inst = True
+                        for c_ in A.calls(m.node):
+                            if (dotted(c_.func) or "") in ("sf", "object.__setattr__", "setattr") and len(c_.args) == 3 and A.const(c_.args[1]) == attr:
+                                inst = True
+                if not inst or any(ast.unparse(d) == "classmethod" for d in self.fn.decorator_list):
+                    return "class:" + attr
+        return "self:" + attr
 
     def _elem(self, tags):
         # an element of a fresh container is as fresh as we can tell without element tracking: keep "fresh",
